@@ -1,6 +1,7 @@
 import Verif.Proofs.NumRoundLen
 import Verif.Proofs.NumHolds
 import Verif.Proofs.NumDecRound
+import Verif.Proofs.NumNumRound
 /-!
 # C08 — Number/Decimal shortening keeps the numeric value
 
@@ -47,7 +48,7 @@ example : isNumber "123456.7e+25".toList = true ∧ trigExpNear "123456.7e+25".t
 theorem number_value (s : List Char) (p : Int) (hs : isNumber s = true) (hp : p ≤ 0) :
     numVal (number s p) = numVal s := by
   obtain ⟨l, hwf, rfl⟩ := exists_lex_of_isNumber hs
-  rcases number_lex l hwf p (fun m0 h => by rw [rnd_nonpos hp]; exact h) with h | ⟨l', h1, h2, _, h4⟩
+  rcases number_lex l hwf p (fun m0 h => by rw [rnd_nonpos hp]; exact h) with h | ⟨l', h1, h2, _, h4, _⟩
   · rw [h]
   · rw [← h2, numVal_str l' h1, numVal_str l hwf, h4 hp]
 
@@ -60,6 +61,29 @@ theorem number_grammar (s : List Char) (p : Int) (hs : isNumber s = true) : isNu
   rcases number_lex l hwf p (fun m0 h => rnd_wf h p) with h | ⟨l', h1, h2, _, _⟩
   · rw [h]; exact isNumber_str l hwf
   · rw [← h2]; exact isNumber_str l' h1
+
+/-- (d), full statement: with a precision `p > 0` the result of `Number` is within half a unit of the `p`-th
+    significant digit.  It fails on the implementation (and on the model, which reproduces the `int`
+    wrap-around) for the known finding K-C08-1; proved below outside the trigger of K-C08-1/2. -/
+def number_round_full : Prop :=
+  ∀ (s : List Char) (p : Int), isNumber s = true → 0 < p →
+    ∃ v w, numVal s = some v ∧ numVal (number s p) = some w ∧ WithinHalfUnit s p v w
+
+/-- (d) with a precision `p > 0` the result of `Number` is within half a unit of the `p`-th significant digit
+    of the input value, for lexemes whose exponent stays clear of the int64 range (`¬ trigExpNear`) -/
+theorem number_round_partial (s : List Char) (p : Int) (hs : isNumber s = true) (hp : 0 < p)
+    (hg : trigExpNear s p = false) :
+    ∃ v w, numVal s = some v ∧ numVal (number s p) = some w ∧ WithinHalfUnit s p v w := by
+  obtain ⟨l, hwf, rfl⟩ := exists_lex_of_isNumber hs
+  have hparse := parse_str l hwf
+  unfold trigExpNear at hg
+  rw [hparse] at hg
+  have hpp : decide (0 < p) = true := by simp; omega
+  simp only [hpp, Bool.true_and, decide_eq_false_iff_not] at hg
+  obtain ⟨w, h1, h2⟩ := number_round_lex l hwf p hp (by omega)
+  exact ⟨l.val, w, numVal_str l hwf, h1, h2⟩
+
+example : isNumber "-0012.3456e+7".toList = true ∧ trigExpNear "-0012.3456e+7".toList 3 = false := by decide
 
 /-- (e) output shape: for a lexeme that does not start with `+` the first byte of the result of `Number`
     is a digit, `.` or `-` (a lexeme with `+` can come back unchanged when its exponent is not an int64) -/
